@@ -216,6 +216,18 @@ func (s *faultStore) Unlock(_ context.Context, name string) error {
 	return nil
 }
 
+func (s *faultStore) tamper(ev caEvent) {
+	s.mu.Lock()
+	defer s.mu.Unlock()
+	if ev.tamper == "c" {
+		if v, ok := s.data[ev.src]; ok {
+			s.data[ev.dst] = append([]byte(nil), v...)
+			return
+		}
+	}
+	delete(s.data, ev.dst)
+}
+
 func (s *faultStore) get(key string) ([]byte, bool) {
 	s.mu.Lock()
 	defer s.mu.Unlock()
@@ -418,12 +430,45 @@ type caEvent struct {
 	idx   int
 	mode  string
 	fault bool
+	// tampering between two start-ups (not an interruption): delete a value / copy one over another
+	tamper   string // "" | d | c
+	src, dst string
+}
+
+func longKey(short string) (string, bool) {
+	for _, c := range caKeys {
+		if c.short == short {
+			return c.key, true
+		}
+	}
+	return "", false
 }
 
 func parseCAEvents(s string) ([]caEvent, bool) {
 	var out []caEvent
 	for _, p := range strings.Split(s, ";") {
 		a := strings.Split(p, ":")
+		if len(a) == 2 && a[0] == "d" {
+			k, ok := longKey(a[1])
+			if !ok {
+				return nil, false
+			}
+			out = append(out, caEvent{tamper: "d", dst: k})
+			continue
+		}
+		if len(a) == 2 && a[0] == "c" {
+			ab := strings.Split(a[1], ">")
+			if len(ab) != 2 {
+				return nil, false
+			}
+			src, ok1 := longKey(ab[0])
+			dst, ok2 := longKey(ab[1])
+			if !ok1 || !ok2 {
+				return nil, false
+			}
+			out = append(out, caEvent{tamper: "c", src: src, dst: dst})
+			continue
+		}
 		if len(a) != 2 || (a[0] != "s" && a[0] != "l") {
 			return nil, false
 		}
@@ -483,6 +528,9 @@ type startResult struct {
 	ikey  crypto.Signer
 	rkey  crypto.Signer
 	rkErr error
+	// the intermediate pair held between Provision and Start does not match (seen only after
+	// an interrupted renewal; Start's own renewal replaces it)
+	mismatchBeforeStart bool
 }
 
 func pkiJSON(life string) json.RawMessage {
@@ -527,6 +575,13 @@ func startOnce(ev caEvent) (res startResult) {
 			return
 		}
 		app := val.(*caddypki.PKI)
+		mismatch := false
+		if ca0 := app.CAs[caID]; ca0 != nil {
+			if k, ok := ca0.IntermediateKey().(crypto.Signer); ok && ca0.IntermediateCertificate() != nil {
+				mismatch = !samePub(k.Public(), ca0.IntermediateCertificate().PublicKey)
+			}
+		}
+		defer func() { r.mismatchBeforeStart = mismatch }()
 		if err := app.Start(); err != nil {
 			r = startResult{kind: "err", class: "start", msg: err.Error()}
 			return
@@ -681,9 +736,30 @@ func runCA(line, hist string) core.Outcome {
 	var stableRC, stableRK []byte // root as of the first successful start-up
 	rootFixed := false
 	anyFault := false
+	tampered := false // after tampering the property promises nothing: correspondence only
 	for i, ev := range evs {
 		if i > 0 {
 			toks = append(toks, tok{s: " ; "})
+		}
+		if ev.tamper != "" {
+			theStore.tamper(ev)
+			tampered = true
+			tags["tampered"] = true
+			toks = append(toks, tok{s: "T {"})
+			for j, ck := range caKeys {
+				if j > 0 {
+					toks = append(toks, tok{s: ","})
+				}
+				toks = append(toks, tok{s: ck.short + "="})
+				if v, ok := theStore.get(ck.key); ok {
+					nm.learnBlob(v)
+					toks = append(toks, nm.blobToks(v)...)
+				} else {
+					toks = append(toks, tok{s: "-"})
+				}
+			}
+			toks = append(toks, tok{s: "}"})
+			continue
 		}
 		// state before, for the stability clauses
 		icBefore, icPresent := theStore.get(caKeys[2].key)
@@ -769,11 +845,17 @@ func runCA(line, hist string) core.Outcome {
 		if renewed {
 			tags["renewal"] = true
 		}
+		if r.mismatchBeforeStart {
+			tags["provision-held-mismatched-intermediate-until-start-renewed-it"] = true
+		}
 		if !fired && i > 0 && anyFault {
 			tags["restart-after-interruption"] = true
 		}
 
 		// ---- oracle (implementation only)
+		if tampered {
+			continue
+		}
 		rcNow, _ := theStore.get(caKeys[0].key)
 		rkNow, _ := theStore.get(caKeys[1].key)
 		icNow, icNowOK := theStore.get(caKeys[2].key)
